@@ -2,8 +2,8 @@
 
 A unit is described by /verif/contracts/<unit>.vspec (directive syntax below).  Everything that is
 executable in the generated file is cut verbatim from /repo's current working tree; the only
-changes are (a) the closed list of syntactic normalisations N1..N10 and (b) specification text
-spliced at structural anchor points S1..S6.  Every change is an `Edit` with its source offset; an
+changes are (a) the closed list of syntactic normalisations N1..N13 and (b) specification text
+spliced at structural anchor points S1..S8.  Every change is an `Edit` with its source offset; an
 erasure self-check undoes all of them on the generated text and demands the verbatim cut back.
 
 Directives (a line starting with `//@ `; text up to the next directive belongs to it):
@@ -21,6 +21,7 @@ Directives (a line starting with `//@ `; text up to the next directive belongs t
   //@@ loop N header [iter=it]        S3 (+N9)
   //@@ loop N pre                     S4
   //@@ loop N post                    S5
+  //@@ loop N after                   S8  ghost text right after the loop
   //@@ epilogue                       S6
   //@@ closure N [ret=b] [type=bool]  S7  requires/ensures on the N-th closure (+N12 brace wrapping)
   //@ import QUAL from FILE home=UNIT [ret=r]     signature from the real source, contract text
@@ -291,6 +292,27 @@ def norm_closure_underscore(text, m):
     return [Edit(mm.start(), "|_|", "|_verif_unused|", "norm:N3") for mm in re.finditer(r"\|_\|", m)]
 
 
+_N13_ZIP = re.compile(r"(?<![\w.])(\w+)(\s*\.iter\(\)\s*\.zip\()(\w+)(\.iter\(\)\)\s*\.all\(\|\((\w+), (\w+)\)\|)")
+_N13_ALL = re.compile(r"(?<![\w.])(\w+)(\s*\.iter\(\)\s*\.all\()(?=\|)")
+
+
+def norm_iter_all(text, m):
+    """N13: two std iterator chains over a named Vec are routed through helper functions whose contract states
+    what `Iterator::all` (over `slice::Iter` / `Zip`) does; the closure, its body and the operands stay verbatim:
+        A.iter().zip(B.iter()).all(|(p, q)| BODY)   ->   verif_zip_all(&A, &B, |p, q| BODY)
+        A.iter().all(|p| BODY)                      ->   verif_all(&A, |p| BODY)
+    The helpers are external (assumption A-iter); Verus has no specification for iterator adapters."""
+    edits = []
+    for mm in _N13_ZIP.finditer(m):
+        edits.append(Edit(mm.start(1), "", "verif_zip_all(&", "norm:N13"))
+        edits.append(Edit(mm.start(2), text[mm.start(2) : mm.end(2)], ", &", "norm:N13"))
+        edits.append(Edit(mm.start(4), text[mm.start(4) : mm.end(4)], ", |%s, %s|" % (mm.group(5), mm.group(6)), "norm:N13"))
+    for mm in _N13_ALL.finditer(m):
+        edits.append(Edit(mm.start(1), "", "verif_all(&", "norm:N13"))
+        edits.append(Edit(mm.start(2), text[mm.start(2) : mm.end(2)], ", ", "norm:N13"))
+    return edits
+
+
 def norm_paths(text, m, prefixes):
     edits = []
     for p in sorted(prefixes, key=len, reverse=True):
@@ -530,6 +552,10 @@ def gen_fn(d, strip_paths, mode="verify", contract_text=None, vacuity=False):
         elif what == "post":
             _lint_ghost_only(s.text, s.where)
             edits.append(Edit(lc, "", s.text.rstrip() + "\n", "splice:S5"))
+        elif what == "after":
+            # S8: ghost text right after the loop's closing brace (facts the code after the loop needs)
+            _lint_ghost_only(s.text, s.where)
+            edits.append(Edit(lc + 1, "", "\n" + s.text.rstrip() + "\n", "splice:S8"))
         else:
             raise ExtractError("%s: unknown loop section %s" % (s.where, what))
     # S7: contracts on closures (n-th closure of the function): `//@@ closure N [ret=b]`.  The spliced
@@ -584,6 +610,7 @@ def gen_fn(d, strip_paths, mode="verify", contract_text=None, vacuity=False):
 
     edits.extend(norm_macros(text, m, strip_paths))
     edits.extend(norm_closure_underscore(text, m))
+    edits.extend(norm_iter_all(text, m))
     edits.extend(norm_let_chains(text, m, body_open, body_close))
     macro_spans = [(x.off, x.off + len(x.old)) for x in edits if x.kind in ("norm:N1", "norm:N2")]
     for pe in norm_paths(text, m, strip_paths):
@@ -598,7 +625,7 @@ def gen_fn(d, strip_paths, mode="verify", contract_text=None, vacuity=False):
             continue
         final.append(x)
     # merge multiple zero-width insertions at the same offset deterministically by kind order
-    order = {"splice:S5": 0, "splice:S6": 0, "norm:N7": 1, "splice:S1": 2, "splice:S3": 2, "norm:N9": 2, "splice:S2": 3, "norm:N4": 3, "splice:S4": 4, "splice:S7": 2, "norm:N12": 3}
+    order = {"splice:S5": 0, "splice:S6": 0, "norm:N7": 1, "splice:S1": 2, "splice:S3": 2, "norm:N9": 2, "splice:S2": 3, "norm:N4": 3, "splice:S4": 4, "splice:S7": 2, "norm:N12": 3, "norm:N13": 1}
     final.sort(key=lambda x: (x.off, 0 if x.old == "" else 1, order.get(x.kind, 5)))
     out, placed = apply_edits(text, final)
     if erase(out, placed) != text:
